@@ -41,19 +41,19 @@ CLAIMED = {
   technique="Lean 4 proof over a hand model of at.rs/slyce + differential correspondence against CPython slicing", ref="DESIGN.md §6 C09"),
  "C10": dict(
   text="Lean 4 theorems over a hand model of Type::matches / == / concat / conjoin (arms in source order, unions as sets, "
-       "structs as maps), for all (well-formed) types, by induction on type size: reflexivity AND TRANSITIVITY of == and of matches, symmetry of == (eqv_symm, by counting modulo ==) "
-       "(matches_trans: for all well-formed a, b, c; by induction on the total size through unions on either side, any, "
-       "function contravariance, struct width / depth and cell invariance), ! least, "
-       "any greatest, the variance equation of every constructor (arrays, tuples, struct width+depth, function parameters "
-       "contravariant / results covariant, arity), invariance of mut, a union is an upper bound of its members and lies below "
-       "exactly what all members lie below; soundness for first-order values is C01.matches_sound_partial. The join / meet "
-       "(concat / conjoin) laws are NOT yet proved: they are evaluated, with all other laws, on the real Type API for generated "
-       "pairs and triples (tested). The model is tied to the code by a "
-       "differential stream over eq/matches/concat/conjoin and all 20 type queries, evaluated on the member order the "
-       "implementation actually had.",
+       "structs as maps), for all well-formed types, by induction on type size - EVERY clause of the property: matches is "
+       "reflexive and transitive (matches_trans, through unions on either side, any, function contravariance, struct width / "
+       "depth, cell invariance); ! is least and any greatest; arrays, tuples and struct fields covariant, function parameters "
+       "contravariant and results covariant, mut invariant; a union is an upper bound of its members and lies below exactly the "
+       "types all its members lie below; the meet used to intersect parameter types (conjoin) is a lower bound of its arguments "
+       "and well-formed (meet_lower_bound); the join concat is the least upper bound of its operands and well-formed; == is an "
+       "equivalence relation (refl, symm by counting modulo ==, trans), implies matches, and matches respects it; whenever A "
+       "matches B every value of A is a value of B (C01.matches_sound, all values). The model is tied to the code by a "
+       "differential stream over eq / matches / concat / conjoin and all 20 type queries, evaluated on the member order the "
+       "implementation actually had, and the same laws are evaluated on the real Type API for generated pairs and triples.",
   note="Lean kernel; the Ty model is hand-written (tied by correspondence only, ~18k queries per quick run); types outside wf "
        "(built through public constructors that bypass normalisation) are out of scope; nested unions answer `none` in the model's queries.",
-  technique="Lean 4 proof over a hand model of the type algebra + differential correspondence + law oracle", ref="DESIGN.md §6 C10"),
+  technique="Lean 4 proof of all laws over a hand model of the type algebra + differential correspondence + law oracle", ref="DESIGN.md §6 C10"),
  "C06": dict(
   text="Lean 4 theorems about the reference semantics Spec (an executable big-step evaluator of the whole language in which "
        "expressions cannot return an environment): a name denotes the nearest preceding declaration and declaring one name leaves "
